@@ -481,7 +481,20 @@ func schedCase(k *engine.Case) {
 
 	nsteps := 4 + r.Intn(12)
 	ok := true
+	bystanders := r.Intn(3) == 0
 	for s := 0; s < nsteps && ok; s++ {
+		if bystanders && r.Intn(3) == 0 {
+			// another map of another ratio is built (and used once) in the same process: maps
+			// are independent instances, this must not change anything for the map under test
+			bk := kinds[r.Intn(len(kinds))]
+			br := []int{1, 2, 5, 7, 100}[r.Intn(5)]
+			bm := bk.mk(br)
+			if w, err := bm.AcquireRead(context.Background(), "bystander"); err == nil {
+				bm.ReleaseRead("bystander", w)
+			}
+			k.Logf("step %d: (a second map %s with ratio %d is built and used once)", s, bk.name, br)
+			k.Count("bystander_maps", 1)
+		}
 		hs, ps := holders(), pendings()
 		var acts []action
 		choice := r.Intn(100)
